@@ -251,6 +251,12 @@ def _corner_shapes(acc, shard, nshards, seed, tier):
         if idx % nshards != shard:
             continue
         acc.check({"kind": "single", "u": u, "options": o}, lambda c: c.pop("_changed", True), ["corner:platform-spelling"])
+    # query items that only become a sorting tie once the URL is lower-cased (valueless vs empty value under keys differing by case)
+    for (u, v), o in itertools.product(SORT_TIE_PAIRS, optsets):
+        idx += 1
+        if idx % nshards != shard:
+            continue
+        acc.check({"kind": "pair", "u": u, "v": v, "family": "corner", "transforms": ["permute-query"], "options": o}, _pair_nt, ["corner:sort-tie-after-lowercasing"])
     for (u, v), o in itertools.product(INDEX_CASE_PAIRS, optsets):
         idx += 1
         if idx % nshards != shard:
@@ -262,6 +268,8 @@ PLATFORM_SPELLINGS = ["https://facebook.com//zuck//posts//10158", "https://www.f
                       "https://facebook.com/zuck/%70osts/10158", "http://m.facebook.com//groups//123456789//permalink//55/", "https://www.youtube.com//watch?v=dQw4w9WgXcQ&foo=bar",
                       "https://www.youtube.com/channel//UCabcdefghijklmnopqrstuv/videos", "https://youtube.com/./watch?v=dQw4w9WgXcQ", "https://youtu.be//dQw4w9WgXcQ",
                       "https://www.youtube.com/%77atch?v=dQw4w9WgXcQ", "https://www.facebook.com//photo.php?fbid=10&set=a.2", "https://facebook.com/zuck//videos/77/?x=1"]
+SORT_TIE_PAIRS = [("http://example.com/list?Tag=&tag", "http://example.com/list?tag&Tag="), ("http://a.com/?K&k=&K=", "http://a.com/?K=&k=&K"),
+                  ("http://a.com/p?A=1&a=1&A", "http://a.com/p?A&a=1&A=1"), ("https://b.org/?x=&X&x", "https://b.org/?x&X&x=")]
 INDEX_CASE_PAIRS = [("http://a.com/x/INDEX.HTML/index.html", "http://a.com/x/INDEX.HTML"), ("https://b.org/Index.php/amp/", "https://b.org/Index.php"),
                     ("http://a.com/DEFAULT.ASPX/default.asp?x=1", "http://a.com/DEFAULT.ASPX?x=1"), ("http://a.com/x/Index/index", "http://a.com/x/Index"),
                     ("http://a.com/x/index.html/index.html", "http://a.com/x/index.html"), ("http://a.com/x/INDEX.HTML", "http://a.com/x/index.html")]
